@@ -195,9 +195,26 @@ def c10_eligible(valid):
 def c10_units(valid):
     """0-2: the fault hits the initial request of info / players / rules; 3-5: it hits the LAST exchange of an attempt of
     that section, after the server answered every earlier one with a challenge (needs >= 1 challenge round): the retried
-    unit is the whole handshake-plus-request, so such an attempt counts like any other"""
+    unit is the whole handshake-plus-request, so such an attempt counts like any other; 6-8 (the section's reply travels
+    as two or more fragments): the reply STOPS HALF WAY — after the challenge rounds a silent attempt still receives some
+    of the fragments (see _got) and then nothing, a malformed datagram arrives after such a selection, a send fault hits
+    the last request of the attempt (Spec/ValveFaults.lean: Attempt.got; Run/ValveFaults.lean: valveGot)"""
     ch = [int(x) for x in valid.tags["CH"].split(",")]
-    return [0, 1, 2] + [3 + k for k in range(3) if ch[k] >= 1]
+    seg = valid.seg()
+    # (replies of 2-4 fragments, and at most C10_BASE_CAP bases per unit: every silent attempt repeats the fragments, the
+    # scripts of the thorough tier's hundreds of thousands of vectors would not fit in memory otherwise)
+    return [0, 1, 2] + [3 + k for k in range(3) if ch[k] >= 1] + [6 + k for k in range(3) if 2 <= seg[k] - ch[k] <= 4]
+
+
+C10_BASE_CAP = {6: 10, 7: 10, 8: 10}
+
+
+def _got(unit, i, frags):
+    """the fragments the attempt at position i of the vector still receives: all but the last / only the first / all but
+    the first in reverse order of arrival"""
+    if unit < 6:
+        return []
+    return [frags[:-1], frags[:1], frags[1:][::-1]][i % 3]
 
 
 def c10_build(valid, unit, v, r, new_id):
@@ -215,24 +232,24 @@ def c10_build_multi(valid, vecs, r, new_id):
     starts = [0, seg[0], seg[0] + seg[1]]
     groups = [ds[starts[k]:starts[k] + seg[k]] for k in range(3)]
     newds, faults = [], []
-    by_section = {u % 3: (u >= 3, v) for u, v in vecs.items()}
+    by_section = {u % 3: (u, v) for u, v in vecs.items()}
     for k in range(3):
         if k not in by_section:
             newds += groups[k]
             faults += [False] * (1 + ch[k])
             continue
-        late, v = by_section[k]
+        unit, v = by_section[k]
         # the challenge replies of one attempt (one datagram each), delivered before a late fault
-        pre = groups[k][:ch[k]] if late else []
-        for e in v:
+        pre = groups[k][:ch[k]] if unit >= 3 else []
+        for i, e in enumerate(v):
             if e == "S":
-                newds += pre + [None]
+                newds += pre + _got(unit, i, groups[k][ch[k]:]) + [None]
                 faults += [False] * (len(pre) + 1)
             elif e == "F":
                 newds += pre
                 faults += [False] * len(pre) + [True]
             elif e == "M":
-                newds += pre + [malformed.CURRENT]
+                newds += pre + _got(unit, i, groups[k][ch[k]:]) + [malformed.CURRENT]
                 faults += [False] * (len(pre) + 1)
             else:
                 newds += groups[k]
